@@ -85,6 +85,160 @@ def select_joins(sel):
     return eqs, alias
 
 
+
+def _o4_index_mapping(ctx, chk):
+    """get_series_time_offsets sorts the series internally; every series id that leaves it must be
+    translated back through a table T with T[internal id] = caller's index.  Three verdicts per obligation:
+    holds / a present construct is wrong (violation) / the construction is not one this analysis reads."""
+    g = ctx.func("fit_offsets.get_series_time_offsets")
+    gflow = Flow.of(g)
+    rets = [n for n in ast.walk(g.node) if isinstance(n, ast.Return) and n.value is not None and enclosing_func(n) is g.node]
+    where = where_of(g, rets[0] if rets else g.node)
+    if not (len(rets) == 1 and isinstance(rets[0].value, ast.Tuple) and len(rets[0].value.elts) == 3):
+        chk.indeterminate("C13.O4", where, "expected one `return (ids, offsets, mapping)`")
+        return
+    ids, offs, mp = rets[0].value.elts
+    fo = [c for c in ast.walk(g.node) if isinstance(c, ast.Call) and ctx.cg.resolve_callee(g, c.func) == ["fit_offsets.find_offsets"]]
+    fo_st = enclosing_stmt(fo[0]) if len(fo) == 1 else None
+    if not (isinstance(fo_st, ast.Assign) and isinstance(fo_st.targets[0], ast.Tuple) and len(fo_st.targets[0].elts) == 2
+            and isinstance(fo_st.targets[0].elts[0], ast.Name)):
+        chk.indeterminate("C13.O4", where, "result of find_offsets is not unpacked into (ids, offsets)")
+        return
+    internal_ids = fo_st.targets[0].elts[0].id
+    idef = gflow.def_value(ids) if isinstance(ids, ast.Name) else ids
+    # the returned ids
+    table = None
+    verdict = None
+    core = idef
+    while isinstance(core, ast.Call) and isinstance(core.func, ast.Name) and core.func.id in ("list", "tuple") and len(core.args) == 1:
+        core = core.args[0]
+    if isinstance(core, ast.Name) and core.id == internal_ids:
+        verdict = False
+        desc = "returned ids = %s: the internal ids, untranslated" % ast.unparse(idef)
+    elif isinstance(core, (ast.ListComp, ast.GeneratorExp)) and len(core.generators) == 1 and isinstance(core.generators[0].iter, ast.Name) \
+            and core.generators[0].iter.id == internal_ids and isinstance(core.generators[0].target, ast.Name) and not core.generators[0].ifs:
+        lv = core.generators[0].target.id
+        e = core.elt
+        if isinstance(e, ast.Name) and e.id == lv:
+            verdict = False
+            desc = "returned ids = %s: the internal ids, untranslated" % ast.unparse(idef)[:80]
+        elif isinstance(e, ast.Subscript) and isinstance(e.value, ast.Name) and isinstance(e.slice, ast.Name) and e.slice.id == lv:
+            table = e.value.id
+            desc = "returned ids = %s" % ast.unparse(idef)[:80]
+    if verdict is None and table is None:
+        chk.indeterminate("C13.O4", where, "returned ids %s are not TABLE[id] for id in the ids of find_offsets" % (ast.unparse(idef)[:80] if idef is not None else "?"))
+        return
+    if verdict is False:
+        chk.ob("C13.O4", False, where, desc, "every series id that leaves the function is translated back to the caller's index",
+               key="get_series_time_offsets|index-mapping", why="ids of the internally sorted list would attach offsets to other intervals")
+        return
+    # the table: (a) dict filled T[new] = original inside `for new, (.., original) in enumerate(sorted decorated list)`
+    #            (b) T = sorted(range(len(L)), key=...) and the sorted list is [L[i] for i in T]
+    tverdict = None
+    tdesc = ""
+    for n in ast.walk(g.node):
+        if isinstance(n, ast.Assign) and isinstance(n.targets[0], ast.Subscript) and isinstance(n.targets[0].value, ast.Name) \
+                and n.targets[0].value.id == table and isinstance(n.value, ast.Name) and isinstance(n.targets[0].slice, ast.Name):
+            for a in _anc(n):
+                if isinstance(a, ast.For) and isinstance(a.iter, ast.Call) and isinstance(a.iter.func, ast.Name) and a.iter.func.id == "enumerate":
+                    t = a.target
+                    if isinstance(t, ast.Tuple) and len(t.elts) == 2 and isinstance(t.elts[0], ast.Name) and isinstance(t.elts[1], ast.Tuple):
+                        counter = t.elts[0].id
+                        members = [e.id for e in t.elts[1].elts if isinstance(e, ast.Name)]
+                        k_, v_ = n.targets[0].slice.id, n.value.id
+                        if k_ == counter and v_ in members:
+                            # the member must be the index carried from enumerate(series_list)
+                            carried = _carried_index(g, gflow, a.iter.args[0] if a.iter.args else None, t.elts[1], v_)
+                            if carried is True:
+                                tverdict, tdesc = True, "%s[position in the sorted list] = index carried from enumerate(%s)" % (table, g.params[0])
+                            elif carried is False:
+                                tverdict, tdesc = False, "%s[position] = %s, which is not the caller's index" % (table, v_)
+                        elif v_ == counter and k_ in members:
+                            tverdict, tdesc = False, "%s[%s] = %s: the table is inverted (caller's index -> internal id)" % (table, k_, v_)
+    if tverdict is None:
+        tv = None
+        for n in ast.walk(g.node):
+            if isinstance(n, ast.Assign) and len(n.targets) == 1 and isinstance(n.targets[0], ast.Name) and n.targets[0].id == table:
+                tv = n.value
+        if isinstance(tv, ast.Call) and isinstance(tv.func, ast.Name) and tv.func.id == "sorted" and tv.args \
+                and isinstance(tv.args[0], ast.Call) and isinstance(tv.args[0].func, ast.Name) and tv.args[0].func.id == "range" \
+                and len(tv.args[0].args) == 1 and isinstance(tv.args[0].args[0], ast.Call) and isinstance(tv.args[0].args[0].func, ast.Name) \
+                and tv.args[0].args[0].func.id == "len" and isinstance(tv.args[0].args[0].args[0], ast.Name):
+            base = tv.args[0].args[0].args[0].id
+            # the list handed to build_head_mapping is [base[i] for i in table]
+            bh = [c for c in ast.walk(g.node) if isinstance(c, ast.Call) and ctx.cg.resolve_callee(g, c.func) == ["fit_offsets.build_head_mapping"]]
+            if len(bh) == 1 and bh[0].args:
+                sv = bh[0].args[0]
+                sv = gflow.def_value(sv) if isinstance(sv, ast.Name) else sv
+                if isinstance(sv, ast.ListComp) and len(sv.generators) == 1 and isinstance(sv.generators[0].iter, ast.Name) and not sv.generators[0].ifs \
+                        and isinstance(sv.generators[0].target, ast.Name) and isinstance(sv.elt, ast.Subscript) and isinstance(sv.elt.value, ast.Name) \
+                        and isinstance(sv.elt.slice, ast.Name) and sv.elt.slice.id == sv.generators[0].target.id:
+                    if sv.generators[0].iter.id == table and sv.elt.value.id == base:
+                        # base must be index-aligned with the caller's list
+                        bd = None
+                        for n in ast.walk(g.node):
+                            if isinstance(n, ast.Assign) and isinstance(n.targets[0], ast.Name) and n.targets[0].id == base:
+                                bd = n.value
+                        aligned = base == g.params[0] or (isinstance(bd, ast.ListComp) and len(bd.generators) == 1 and not bd.generators[0].ifs
+                                                          and isinstance(bd.generators[0].iter, ast.Name) and bd.generators[0].iter.id == g.params[0])
+                        if aligned:
+                            tverdict, tdesc = True, "%s = argsort of %s; sorted list = [%s[i] for i in %s]" % (table, base, base, table)
+    if tverdict is None:
+        chk.indeterminate("C13.O4", where, "construction of the translation table %s not recognised" % table)
+        return
+    # the output mapping's entries
+    mverdict = None
+    mdesc = ""
+    comps = []
+    if isinstance(mp, ast.Name):
+        for n in ast.walk(g.node):
+            if isinstance(n, ast.Assign) and isinstance(n.targets[0], ast.Subscript) and isinstance(n.targets[0].value, ast.Name) \
+                    and n.targets[0].value.id == mp.id and isinstance(n.value, ast.ListComp):
+                comps.append(n.value)
+            if isinstance(n, ast.Assign) and isinstance(n.targets[0], ast.Name) and n.targets[0].id == mp.id and isinstance(n.value, ast.DictComp) \
+                    and isinstance(n.value.value, ast.ListComp):
+                comps.append(n.value.value)
+    elif isinstance(mp, ast.DictComp) and isinstance(mp.value, ast.ListComp):
+        comps.append(mp.value)
+    for lc in comps:
+        if isinstance(lc.elt, ast.Tuple) and len(lc.elt.elts) == 2 and len(lc.generators) == 1 and isinstance(lc.generators[0].target, ast.Tuple) \
+                and len(lc.generators[0].target.elts) == 2 and isinstance(lc.generators[0].target.elts[0], ast.Name):
+            sid = lc.generators[0].target.elts[0].id
+            e0 = lc.elt.elts[0]
+            if isinstance(e0, ast.Name) and e0.id == sid:
+                mverdict, mdesc = False, "mapping entries (%s, ...): the internal id, untranslated" % sid
+            elif isinstance(e0, ast.Subscript) and isinstance(e0.value, ast.Name) and isinstance(e0.slice, ast.Name) and e0.slice.id == sid:
+                mverdict = e0.value.id == table
+                mdesc = "mapping entries (%s[%s], ...)" % (e0.value.id, sid)
+    if mverdict is None:
+        chk.indeterminate("C13.O4", where, "entries of the returned mapping not recognised")
+        return
+    chk.ob("C13.O4", tverdict and mverdict, where, "%s; %s; %s" % (desc, tdesc, mdesc),
+           "every series id that leaves the function is translated back to the caller's index",
+           key="get_series_time_offsets|index-mapping", why="ids of the internally sorted list would attach offsets to other intervals")
+
+
+def _carried_index(g, gflow, sorted_arg, member_tuple, member):
+    """Is `member` (a position in the loop's tuple) the index that `enumerate(series_list)` attached
+    before sorting?  True / False / None (unknown)."""
+    pos = [k for k, e in enumerate(member_tuple.elts) if isinstance(e, ast.Name) and e.id == member]
+    if not pos or sorted_arg is None:
+        return None
+    dec = gflow.def_value(sorted_arg) if isinstance(sorted_arg, ast.Name) else sorted_arg
+    if isinstance(dec, ast.Call) and isinstance(dec.func, ast.Name) and dec.func.id == "sorted" and dec.args:
+        dec = dec.args[0]
+    if isinstance(dec, ast.Name):
+        dec = gflow.def_value(dec)
+    if isinstance(dec, (ast.GeneratorExp, ast.ListComp)) and isinstance(dec.elt, ast.Tuple) and len(dec.generators) == 1 \
+            and len(dec.elt.elts) == len(member_tuple.elts):
+        gen = dec.generators[0]
+        if isinstance(gen.iter, ast.Call) and isinstance(gen.iter.func, ast.Name) and gen.iter.func.id == "enumerate" and gen.iter.args \
+                and isinstance(gen.iter.args[0], ast.Name) and gen.iter.args[0].id == g.params[0] and isinstance(gen.target, ast.Tuple) \
+                and isinstance(gen.target.elts[0], ast.Name):
+            e = dec.elt.elts[pos[0]]
+            return isinstance(e, ast.Name) and e.id == gen.target.elts[0].id
+    return None
+
 def run(ctx, chk, tier="quick"):
     chk.explanation = (
         "Entity typing (storm id / interval id / level id / grid time) derived from the schema's primary "
@@ -380,50 +534,7 @@ def run(ctx, chk, tier="quick"):
                    "the step stored in zeta_grid reaches regrid unchanged", key="%s|grid-step-lineage" % caller.qualname,
                    why="crossings computed on another step are stored under level ids of the grid: every row is attached to the wrong level unless the step is 1")
     # ------------------------------------------------------------ O4 index mapping
-    g = ctx.func("fit_offsets.get_series_time_offsets")
-    gflow = Flow.of(g)
-    rets = [n for n in ast.walk(g.node) if isinstance(n, ast.Return) and n.value is not None and enclosing_func(n) is g.node]
-    ok = False
-    desc = "?"
-    if len(rets) == 1 and isinstance(rets[0].value, ast.Tuple) and len(rets[0].value.elts) == 3:
-        ids, offs, mp = rets[0].value.elts
-        idef = gflow.def_value(ids) if isinstance(ids, ast.Name) else ids
-        # find the mapping dict name: filled as MAP[new] = original inside enumerate(sorted(...))
-        mapname = None
-        for n in ast.walk(g.node):
-            if isinstance(n, ast.Assign) and isinstance(n.targets[0], ast.Subscript) and isinstance(n.targets[0].value, ast.Name) \
-                    and isinstance(n.value, ast.Name):
-                for a in _anc(n):
-                    if isinstance(a, ast.For) and "enumerate" in ast.unparse(a.iter):
-                        t = a.target
-                        if isinstance(t, ast.Tuple) and isinstance(t.elts[0], ast.Name) and isinstance(n.targets[0].slice, ast.Name) \
-                                and n.targets[0].slice.id == t.elts[0].id and isinstance(t.elts[1], ast.Tuple) \
-                                and any(isinstance(e, ast.Name) and e.id == n.value.id for e in t.elts[1].elts):
-                            mapname = n.targets[0].value.id
-        ids_ok = mapname is not None and isinstance(idef, ast.ListComp) and isinstance(idef.elt, ast.Subscript) \
-            and isinstance(idef.elt.value, ast.Name) and idef.elt.value.id == mapname
-        # output mapping entries
-        mp_ok = False
-        if isinstance(mp, ast.Name) and mapname:
-            for n in ast.walk(g.node):
-                if isinstance(n, ast.Assign) and isinstance(n.targets[0], ast.Subscript) and isinstance(n.targets[0].value, ast.Name) \
-                        and n.targets[0].value.id == mp.id and isinstance(n.value, ast.ListComp) and isinstance(n.value.elt, ast.Tuple):
-                    e0 = n.value.elt.elts[0]
-                    mp_ok = isinstance(e0, ast.Subscript) and isinstance(e0.value, ast.Name) and e0.value.id == mapname
-        # original index carried through the sort: (t - t.min(), H, index) for index, (t, H) in enumerate(series_list)
-        carried = False
-        for n in ast.walk(g.node):
-            if isinstance(n, ast.GeneratorExp) and isinstance(n.elt, ast.Tuple) and len(n.generators) == 1:
-                gen = n.generators[0]
-                if "enumerate(%s)" % g.params[0] in ast.unparse(gen.iter).replace(" ", "") and isinstance(gen.target, ast.Tuple) \
-                        and isinstance(gen.target.elts[0], ast.Name):
-                    carried = any(isinstance(e, ast.Name) and e.id == gen.target.elts[0].id for e in n.elt.elts)
-        ok = ids_ok and mp_ok and carried
-        desc = "returned ids = %s; mapping entries through %s: %s; original index carried through the sort: %s" % (
-            ast.unparse(idef)[:60] if idef is not None else "?", mapname, mp_ok, carried)
-    chk.ob("C13.O4", ok, where_of(g, rets[0] if rets else g.node), desc,
-           "every series id that leaves the function is translated back to the caller's index",
-           key="get_series_time_offsets|index-mapping", why="ids of the internally sorted list would attach offsets to other intervals")
+    _o4_index_mapping(ctx, chk)
 
     # ------------------------------------------------------------ O5 grid
     zg = ctx.func("zeta_grid.populate_zeta_grid")
